@@ -89,15 +89,7 @@ impl<P: FwProp> Engine for FwEngine<P> {
     fn known_finding(&self, v: &Violation) -> Option<&'static str> {
         self.0.known_finding(v)
     }
-    fn known_finding_crash(
-        &self,
-        _k: u64,
-        seed: u64,
-        tier: Tier,
-        _kind: &str,
-    ) -> Option<&'static str> {
-        self.0.known_finding_crash(seed, tier)
-    }
+
 }
 
 thread_local! {
@@ -166,7 +158,22 @@ pub fn gen_wild_case(
     } else {
         1 + g.usize(max_machines)
     };
-    let machines: Vec<Machine> = (0..nm).map(|_| mach::gen_machine(g, &mc)).collect();
+    let mut machines: Vec<Machine> = (0..nm).map(|_| mach::gen_machine(g, &mc)).collect();
+    // the quantifier is "machines that pass validation", not "machines the
+    // generator builds": one case in ten makes one field of one machine invalid
+    // and keeps the result only if validation still accepts it. On the unchanged
+    // tree that leaves harmless corner values; if validation is relaxed, what it
+    // lets through is run.
+    if nm > 0 && g.chance(0.1) {
+        let i = g.usize(nm);
+        let (m, what) = mach::invalidate(g, machines[i].clone());
+        stats.probe("machine_with_one_field_invalidated_offered");
+        if crate::sup::catch_sut(|| m.validate()).map_or(false, |r| r.is_ok()) {
+            stats.probe("invalidated_machine_accepted_by_validation_and_run");
+            let _ = what;
+            machines[i] = m;
+        }
+    }
     let fr = [0.0, 0.0, 0.25, 0.5, 1.0, 1.0 / 3.0, 1e-6];
     let pf = *g.pick(&fr);
     let bf = *g.pick(&fr);
